@@ -571,13 +571,14 @@ def struct_cases(tier, rng):
     # two chains, one with a residue name no block has: that molecule goes, the other stays
     cases.append({'structure': 'dipro+trpcage', 'family': 'unknown-resname', 'seed': rng.randrange(10 ** 6), 'bonds': 'both'})
     # requests: the reference is the requested block + modifications
-    req = [('trpcage', [['A-TRP6', 'ALA']], None, 'mutate'), ('trpcage', [['GLY', 'ALA'], ['A-PRO12', 'GLY']], None, 'mutate'),
+    # (the matcher needs minutes for a large residue with hydrogens against a small block, e.g. TRP -> ALA: not generated)
+    req = [('trpcage', [['A-SER14', 'ALA'], ['A-ASP9', 'GLY']], None, 'mutate'), ('trpcage', [['GLY', 'ALA'], ['A-PRO12', 'GLY']], None, 'mutate'),
            ('trpcage', [['TYR3', 'PHE'], ['TYR3', 'PHE']], None, 'mutate'),
            ('trpcage', [], [['ASP9', 'ASP-HD2'], ['A-LYS8', 'LYS-LSN'], ['cter', 'COOH-ter'], ['nter', 'NH2-ter']], 'modify'),
            ('dipro', [['PRO2', 'ALA']], [['nter', 'none'], ['cter', 'C-ter']], 'mutate')]
     if not quick:
-        req += [('sheet', [['THR', 'VAL'], ['A-TRP', 'PHE']], None, 'mutate'), ('helix', [['LYS', 'ARG'], ['LEU', 'GLY']], None, 'mutate'),
-                ('hst5', [['HIS', 'ALA']], None, 'mutate'), ('hst5', [], [['LYS', 'LYS-LSN'], ['cter', 'COOH-ter'], ['nter', 'N-ter']], 'modify'),
+        req += [('sheet', [['THR', 'VAL'], ['A-SER', 'CYS']], None, 'mutate'), ('helix', [['ALA', 'SER'], ['A-GLU', 'GLN']], None, 'mutate'),
+                ('hst5', [['SER', 'THR'], ['GLY', 'ALA']], None, 'mutate'), ('hst5', [], [['LYS', 'LYS-LSN'], ['cter', 'COOH-ter'], ['nter', 'N-ter']], 'modify'),
                 ('villin', [['A-PHE', 'TYR'], ['LEU', 'ILE']], None, 'mutate'), ('3i40', [['B-', 'GLY']], None, 'mutate'),
                 ('3i40', [['A-CYS', 'SER'], ['B-CYS', 'ALA']], [['A-nter', 'NH2-ter'], ['cter', 'COOH-ter']], 'mutate'),
                 ('helix', [], [['GLU', 'GLU-HE1'], ['A-ASP', 'ASP-HD1'], ['cter', 'C-ter'], ['nter', 'N-ter']], 'modify')]
@@ -637,7 +638,7 @@ def run(tier, seed, ev, vd):
     per = 30 if quick else 150
     tasks += [('syn', per, seed * 613 + i) for i in range(nsyn // per)]
     tasks += [('events', chunk) for chunk in common.chunks(base_events, 4)]
-    sm = run_tasks(tasks, (6 if quick else 20, 30 if quick else 90))
+    sm = run_tasks(tasks, (6 if quick else 20, 15 if quick else 90))
     if sm.harness_errors:
         raise tlc.MachineryError('harness error in %d real-structure cases, e.g. %s' % (len(sm.harness_errors), sm.harness_errors[0]))
     ev.states += sm.states
@@ -723,10 +724,20 @@ def selftest(seed):
         os.path.exists(p) and os.remove(p)
     # real structures: one recorded run per family of tampering
     c04_real._load()
-    rec = c04_real.run_case({'structure': 'trpcage', 'family': 'junk-all+del-side-subset+extra-atoms', 'seed': seed + 5, 'bonds': 'distance',
-                             'muts': [['A-TRP6', 'ALA']]})
-    assert not rec.crash, rec.crash
-    rx = [e for e in rec.events if e['kind'] == 'repairx']
+    c04_real.baseline('trpcage')
+    for attempt in range(6):
+        case = {'structure': 'trpcage', 'family': 'junk-all+del-side-subset+extra-atoms', 'seed': seed + 5 + attempt, 'bonds': 'distance',
+                'muts': [['A-SER14', 'ALA']]}
+        events = run_killable(_struct_task, (case,), 60, ['selftest case'])
+        rx = [e for e in events if e['kind'] == 'repairx']
+        plain = [e for e in rx if not e['muts'] and not e['mods']]
+        if rx and all(any(want in c04_real.effects(e) for e in plain) for want in ('readded', 'marked', 'renamed')):
+            break
+    else:
+        raise tlc.MachineryError('selftest: no real-structure case completed with all effects')
+    class rec:      # noqa
+        pass
+    rec.events = events
     plain = [e for e in rx if not e['muts'] and not e['mods']]
     readd = next(e for e in plain if 'readded' in c04_real.effects(e))
     marked = next(e for e in plain if 'marked' in c04_real.effects(e))
@@ -770,10 +781,7 @@ def selftest(seed):
     for what, t in tampered:
         ev = common.Evidence(PID, 'quick', seed)
         vd = common.Verdicts(PID, ev)
-        import time
-        t0 = time.time()
         judge_events([t], ev, vd)
-        print('%.1f s' % (time.time() - t0))
         assert len(vd.violations) == 1, (what, vd.violations)
         print('selftest C04 (real structure): %-48s -> %s' % (what, vd.violations[0][2].split(': ')[-1]))
         for k, p, d in vd.violations:
